@@ -30,3 +30,31 @@ pub fn fs_event(kind: &str, path: &str, len: u64) {
         callback(kind, path, len);
     }
 }
+
+/// Schedule points: an awaitable no-op unless the harness holds the named point, in which case the
+/// task waits there until the point is released.
+static HELD_POINTS: std::sync::Mutex<Vec<String>> = std::sync::Mutex::new(Vec::new());
+static RELEASED: std::sync::OnceLock<tokio::sync::Notify> = std::sync::OnceLock::new();
+
+fn released() -> &'static tokio::sync::Notify {
+    RELEASED.get_or_init(tokio::sync::Notify::new)
+}
+
+pub fn hold(point: &str) {
+    HELD_POINTS.lock().unwrap().push(point.to_string());
+}
+
+pub fn release(point: &str) {
+    HELD_POINTS.lock().unwrap().retain(|p| p != point);
+    released().notify_waiters();
+}
+
+pub async fn sched(point: &str) {
+    loop {
+        let notified = released().notified();
+        if !HELD_POINTS.lock().unwrap().iter().any(|p| p == point) {
+            return;
+        }
+        notified.await;
+    }
+}
